@@ -399,5 +399,8 @@ def run(ctx):
     r5_5(ctx)
     r5_6(ctx)
     r5_7(ctx)
+    from . import c10
+    c10.r10_4(ctx)
+    c10.r10_4_units(ctx)
     for k, v in RAISE_AFTER_EFFECT_OK.items():
         ctx.trust(f"frozen raise-after-effect exemption: {k} - {v}")
